@@ -352,7 +352,22 @@ def judge (d : DState) : Verdict × DState :=
     let s0 := d.st.getD emptyState
     let s' := if implOk then p.deltas.foldl applyDelta s0 else s0
     let keep := match call with | .probe _ | .query _ => d.st | _ => some s'
-    ({ diffs := [("UNMODELLED", [])] }, { d with st := keep, feeTracked := false, unmodelled := d.unmodelled + 1 })
+    -- the attribute-driven shadow and the requested role lists are independent of the model:
+    -- keep them in step so that later steps of this history are judged from the right state
+    let sh' := match call with
+      | .exec _ => if implOk then shadowStep d.shadow implResp.attrs else d.shadow
+      | _ => d.shadow
+    let roles' := match call with
+      | .exec c =>
+        (match d.roles, c.msg with
+         | some (aps, exs), .modify ap ex _ _ _ _ _ _ =>
+           if implOk then some (ap.getD aps, ex.getD exs) else d.roles
+         | r, _ => r)
+      | .inst m => if implOk then some (m.approvers, m.executors) else d.roles
+      | _ => d.roles
+    ({ diffs := [("UNMODELLED", [])] },
+     { d with st := keep, shadow := sh', roles := roles', feeTracked := false,
+              unmodelled := d.unmodelled + 1 })
   else
   match call with
   | .inst m =>
